@@ -79,6 +79,75 @@ Definition disjoint_kids (ks : list (option atree)) : Prop :=
                       In x (addrs ki) -> ~ In x (addrs kj).
 
 (* ---------- the master lemma ---------- *)
+Lemma finish_gen m t m1 c csv m2 a1 m2' f pk' sv' mbh' isb' ks' :
+  pre m t ->
+  hwf m1 -> (nx m <= nx m1)%N -> frame (nx m) t (hp m) (hp m1) ->
+  hp m1 (aroot t) = Some c -> cell_is c t ->
+  (agen t <> g -> rep (hp m1) t /\ cache_ok (is_root (aroot t)) (hp m1) t) ->
+  prep H g rt m1 (aroot t) csv = (m2, a1) ->
+  (* an intermediate step that only fills caches away from the prepared node and the children *)
+  hwf m2' -> nx m2' = nx m2 -> frame (nx m) t (hp m2) (hp m2') -> hp m2' a1 = hp m2 a1 ->
+  (forall k, In (Some k) ks' -> carried (hp m2) (hp m2') k) ->
+  (forall c1 a', c_dirty c1 = true -> c_gen c1 = g -> c_pk c1 = c_pk c -> c_mbh c1 = c_mbh c ->
+                 c_isb c1 = c_isb c -> c_kids c1 = c_kids c ->
+                 c_sv c1 = (if N.eqb (c_gen c) g then c_sv c else if csv then c_sv c else None) ->
+                 cell_is (f c1) (AN a' pk' sv' mbh' g isb' ks') /\ c_dirty (f c1) = true) ->
+  (forall k, In (Some k) ks' -> kid_ok m t m1 k) ->
+  disjoint_kids ks' ->
+  post m t (wr m2' a1 f) (AN a1 pk' sv' mbh' g isb' ks').
+Proof.
+  intros (Hw & Hr & Hs & Hg & Hc & Hrt) Hw1 Hle F1 Hca Hci Hcopy Hprep Hw2' Enx2 F2' Ea1 Hcar2 Hf Hk Hdis.
+  assert (Hgen : c_gen c = agen t) by (destruct t; unfold cell_is in Hci; simpl; tauto).
+  assert (Hb : forall x, In x (addrs t) -> (x < nx m)%N) by (intros; eapply rep_bounded; eauto).
+  destruct (prep_spec H g rt m1 t c csv Hw1 Hca) with (n0 := nx m) (m1 := m2) (a1 := a1)
+    as (Hw2 & Hle2 & (c1 & Hc1 & Hd1 & Hg1 & _ & Hpk1 & Hmbh1 & Hisb1 & Hk1 & Hsv1) & Hcase & F2 & Hcar); auto.
+  { intros E. apply root_own. congruence. }
+  { intros E. destruct Hcopy as (? & ?); [congruence|]. repeat split; auto. }
+  destruct (Hf c1 a1 Hd1 Hg1 Hpk1 Hmbh1 Hisb1 Hk1 Hsv1) as (Hci3 & Hd3).
+  assert (Hc1' : hp m2' a1 = Some c1) by congruence.
+  rewrite (wr_some _ _ _ _ Hc1').
+  assert (Hg3 : c_gen (f c1) = g) by (unfold cell_is in Hci3; tauto).
+  (* a1 is the old root (owned) or fresh *)
+  assert (Ha1 : (a1 = aroot t /\ In (aroot t) (own g t)) \/ (a1 = nx m1 /\ nx m2 = N.succ (nx m1))).
+  { destruct Hcase as [(E & -> & _)|(_ & -> & ?)]; [left|right; auto].
+    split; auto. apply root_own. congruence. }
+  assert (Hna1 : forall k, In (Some k) ks' -> ~ In a1 (addrs k)).
+  { intros k Hin Hx. destruct (Hk k Hin) as (_ & _ & _ & _ & Hn & Hbk).
+    destruct Ha1 as [(-> & _)|(-> & _)]; [tauto|].
+    destruct (Hbk _ Hx) as [[Hx' _]|[_ ?]]; [|lia]. specialize (Hb _ Hx'). lia. }
+  (* the children in the final heap *)
+  assert (Hkids : forall k, In (Some k) ks' ->
+            rep (upd (hp m2') a1 (f c1)) k /\ sep k /\ good g k /\ cache_ok false (upd (hp m2') a1 (f c1)) k
+            /\ ~ In a1 (addrs k)).
+  { intros k Hin. destruct (Hk k Hin) as (Hrk & Hsk & Hgk & Hck & Hn & Hbk).
+    assert (C : carried (hp m1) (upd (hp m2') a1 (f c1)) k).
+    { eapply carried_trans; [|eapply carried_trans].
+      - apply Hcar; auto. intros x Hx. destruct (Hbk _ Hx) as [[Hx' _]|[_ ?]]; [|lia]. specialize (Hb _ Hx'). lia.
+      - apply Hcar2; auto.
+      - apply carried_upd. apply Hna1; auto. }
+    destruct (C Hrk) as (Hr3 & Hc3). repeat split; auto. }
+  destruct (assemble H g (upd (hp m2') a1 (f c1)) a1 (f c1) pk' sv' mbh' isb' ks') as (R1 & R2 & R3 & R4); auto.
+  { apply upd_eq. }
+  assert (F3 : frame (nx m) t (hp m) (upd (hp m2') a1 (f c1))).
+  { eapply frame_trans with (n1 := nx m); [lia | exact F1 |].
+    eapply frame_trans with (n1 := nx m); [lia | exact F2 |].
+    eapply frame_trans with (n1 := nx m); [lia | exact F2' |].
+    destruct Ha1 as [(-> & Ho)|(-> & _)].
+    - eapply frame_own; eauto. congruence.
+    - apply frame_fresh; [lia|]. intros c0 Hc0. congruence. }
+  unfold post. simpl hp. simpl nx.
+  split; [exact R1|]. split; [exact R2|]. split; [exact R3|]. split; [exact R4|].
+  split. { intros x Hx. simpl in *. rewrite upd_neq; auto. intros ->.
+           rewrite Hw2' in Hc1' by auto. discriminate. }
+  split; [lia|]. split; [exact F3|].
+  split. { intros x Hx. apply in_addrs in Hx. destruct Hx as [->|(k & Hin & Hx)].
+    + destruct Ha1 as [(-> & _)|(-> & _)]; [left; apply aroot_in_addrs | right; auto].
+    + destruct (Hk k Hin) as (_ & _ & _ & _ & _ & Hbk). destruct (Hbk _ Hx) as [[? _]|[? _]]; auto. }
+  split. { intros x Hx Hne Hlt. apply in_addrs in Hx. simpl in Hne. destruct Hx as [->|(k & Hin & Hx)]; [congruence|].
+    destruct (Hk k Hin) as (_ & _ & _ & _ & _ & Hbk). destruct (Hbk _ Hx) as [?|[? _]]; [auto | lia]. }
+  simpl. destruct Ha1 as [(-> & ?)|(-> & _)]; [left; auto | right; auto].
+Qed.
+
 Lemma finish m t m1 c csv m2 a1 f pk' sv' mbh' isb' ks' :
   pre m t ->
   hwf m1 -> (nx m <= nx m1)%N -> frame (nx m) t (hp m) (hp m1) ->
@@ -93,53 +162,15 @@ Lemma finish m t m1 c csv m2 a1 f pk' sv' mbh' isb' ks' :
   disjoint_kids ks' ->
   post m t (wr m2 a1 f) (AN a1 pk' sv' mbh' g isb' ks').
 Proof.
-  intros (Hw & Hr & Hs & Hg & Hc & Hrt) Hw1 Hle F1 Hca Hci Hcopy Hprep Hf Hk Hdis.
-  assert (Hgen : c_gen c = agen t) by (destruct t; unfold cell_is in Hci; simpl; tauto).
-  assert (Hb : forall x, In x (addrs t) -> (x < nx m)%N) by (intros; eapply rep_bounded; eauto).
-  destruct (prep_spec H g rt m1 t c csv Hw1 Hca) with (n0 := nx m) (m1 := m2) (a1 := a1)
-    as (Hw2 & Hle2 & (c1 & Hc1 & Hd1 & Hg1 & _ & Hpk1 & Hmbh1 & Hisb1 & Hk1 & Hsv1) & Hcase & F2 & Hcar); auto.
-  { intros E. apply root_own. congruence. }
-  { intros E. destruct Hcopy as (? & ?); [congruence|]. repeat split; auto. }
-  destruct (Hf c1 a1 Hd1 Hg1 Hpk1 Hmbh1 Hisb1 Hk1 Hsv1) as (Hci3 & Hd3).
-  rewrite (wr_some _ _ _ _ Hc1).
-  assert (Hg3 : c_gen (f c1) = g) by (unfold cell_is in Hci3; tauto).
-  (* a1 is the old root (owned) or fresh *)
-  assert (Ha1 : (a1 = aroot t /\ In (aroot t) (own g t)) \/ (a1 = nx m1 /\ nx m2 = N.succ (nx m1))).
-  { destruct Hcase as [(E & -> & _)|(_ & -> & ?)]; [left|right; auto].
-    split; auto. apply root_own. congruence. }
-  assert (Hna1 : forall k, In (Some k) ks' -> ~ In a1 (addrs k)).
-  { intros k Hin Hx. destruct (Hk k Hin) as (_ & _ & _ & _ & Hn & Hbk).
-    destruct Ha1 as [(-> & _)|(-> & _)]; [tauto|].
-    destruct (Hbk _ Hx) as [[Hx' _]|[_ ?]]; [|lia]. specialize (Hb _ Hx'). lia. }
-  (* the children in the final heap *)
-  assert (Hkids : forall k, In (Some k) ks' ->
-            rep (upd (hp m2) a1 (f c1)) k /\ sep k /\ good g k /\ cache_ok false (upd (hp m2) a1 (f c1)) k
-            /\ ~ In a1 (addrs k)).
-  { intros k Hin. destruct (Hk k Hin) as (Hrk & Hsk & Hgk & Hck & Hn & Hbk).
-    assert (C : carried (hp m1) (upd (hp m2) a1 (f c1)) k).
-    { eapply carried_trans.
-      - apply Hcar; auto. intros x Hx. destruct (Hbk _ Hx) as [[Hx' _]|[_ ?]]; [|lia]. specialize (Hb _ Hx'). lia.
-      - apply carried_upd. apply Hna1; auto. }
-    destruct (C Hrk) as (Hr3 & Hc3). repeat split; auto. }
-  destruct (assemble H g (upd (hp m2) a1 (f c1)) a1 (f c1) pk' sv' mbh' isb' ks') as (R1 & R2 & R3 & R4); auto.
-  { apply upd_eq. }
-  assert (F3 : frame (nx m) t (hp m) (upd (hp m2) a1 (f c1))).
-  { eapply frame_trans with (n1 := nx m); [lia | exact F1 |].
-    eapply frame_trans with (n1 := nx m); [lia | exact F2 |].
-    destruct Ha1 as [(-> & Ho)|(-> & _)].
-    - eapply frame_own; eauto. congruence.
-    - apply frame_fresh; [lia|]. intros c0 Hc0. congruence. }
-  unfold post. simpl hp. simpl nx.
-  split; [exact R1|]. split; [exact R2|]. split; [exact R3|]. split; [exact R4|].
-  split. { intros x Hx. simpl in *. rewrite upd_neq; auto. intros ->.
-           rewrite Hw2 in Hc1 by auto. discriminate. }
-  split; [lia|]. split; [exact F3|].
-  split. { intros x Hx. apply in_addrs in Hx. destruct Hx as [->|(k & Hin & Hx)].
-    + destruct Ha1 as [(-> & _)|(-> & _)]; [left; apply aroot_in_addrs | right; auto].
-    + destruct (Hk k Hin) as (_ & _ & _ & _ & _ & Hbk). destruct (Hbk _ Hx) as [[? _]|[? _]]; auto. }
-  split. { intros x Hx Hne Hlt. apply in_addrs in Hx. simpl in Hne. destruct Hx as [->|(k & Hin & Hx)]; [congruence|].
-    destruct (Hk k Hin) as (_ & _ & _ & _ & _ & Hbk). destruct (Hbk _ Hx) as [?|[? _]]; [auto | lia]. }
-  simpl. destruct Ha1 as [(-> & ?)|(-> & _)]; [left; auto | right; auto].
+  intros Hp Hw1 Hle F1 Hca Hci Hcopy Hprep Hf Hk Hdis.
+  assert (Hw2 : hwf m2).
+  { destruct (prep_spec H g rt m1 t c csv Hw1 Hca) with (n0 := nx m) (m1 := m2) (a1 := a1) as (Hw2 & _); auto.
+    - intros E. apply root_own. destruct t; unfold cell_is in Hci; simpl; intuition congruence.
+    - intros E. destruct Hp as (_ & _ & Hs & _). destruct Hcopy as (? & ?); [|repeat split; auto].
+      destruct t; unfold cell_is in Hci; simpl; intuition congruence. }
+  eapply (finish_gen m t m1 c csv m2 a1 m2); eauto.
+  - apply frame_refl.
+  - intros k _ Hr. split; auto.
 Qed.
 
 (* ---------- a new node over represented children ---------- *)
